@@ -253,6 +253,7 @@ pub fn run(ctx: &Ctx, rec: &mut Rec) {
                 };
                 if !(ok && sat == Some(true)) {
                     rec.count("coordinate_witnesses_unsatisfied", 1);
+                    rec.count(&format!("unsatisfied with {class}"), 1);
                     if *class == "coords:valid" || *class == "coords:other-rep" || *class == "coords:(0,-1)" {
                         // completeness belongs to C13; only count here
                         rec.count("valid coordinates not satisfied (see C13)", 1);
@@ -260,6 +261,7 @@ pub fn run(ctx: &Ctx, rec: &mut Rec) {
                     continue;
                 }
                 rec.count("coordinate_witnesses_satisfied", 1);
+                rec.count(&format!("satisfied with {class}"), 1);
                 // satisfied: the returned variable must be a valid group element
                 let detail = json!({"gadget": g.name, "coordinates": el_json(e), "class": class});
                 match out {
